@@ -224,11 +224,15 @@ def canonicalName (s : Str) : Str := (if isFqdn s then s else s ++ ['.']).map lo
 /-- `common.AddrToDnsType`: A for `Is4()`, AAAA otherwise (an IPv4-mapped destination asks AAAA). -/
 def qtypeStr (is4 : Bool) : Str := if is4 then ['1'] else ['2', '8']
 
-def cacheKey (name : Str) (is4 : Bool) : Str := canonicalName name ++ qtypeStr is4
+/-- `cacheKey` spells a `|` of the name as `\124` (the presentation-format escape of that byte; fix
+`4e63a53`): `|` separates the question part of a key from the response scope (`baseKeyOf`). -/
+def escBar (s : Str) : Str := s.flatMap fun c => if c = '|' then ['\\', '1', '2', '4'] else [c]
+
+def cacheKey (name : Str) (is4 : Bool) : Str := escBar (canonicalName name) ++ qtypeStr is4
 
 /-- `DnsController.cacheKey(qname, qtype)` for an arbitrary query type (decimal type number;
 `cacheKeyQ n 1 = cacheKey n true`, `cacheKeyQ n 28 = cacheKey n false`). -/
-def cacheKeyQ (name : Str) (qtype : Nat) : Str := canonicalName name ++ itoa qtype
+def cacheKeyQ (name : Str) (qtype : Nat) : Str := escBar (canonicalName name) ++ itoa qtype
 
 /-- `dnsCacheBaseKey`: the part before the first `|`. -/
 def baseKeyOf (ck : Str) : Str := match splitFirst '|' ck with | some (a, _) => a | none => ck
